@@ -222,7 +222,8 @@ pub fn run(tier: &str, seed: u64) -> i32 {
         comparisons) x 8 documents built from recipes (random base over the field vocabulary + edits that make a \
         chosen predicate true / nearly true / absent / wrong kind). Each (rule, document) is evaluated by the \
         engine on the rule and on the rule with condition `not (C)`, giving a three-valued result that must be in \
-        the reference interpreter's admissible set. Non-trivial: across the documents of a rule at least two \
+        the reference interpreter's admissible set. Further streams: same-field rules, same-holder nested rules against \
+        arrays of objects, key lists of 62-130 members. Non-trivial: across the documents of a rule at least two \
         different three-valued results occur; distinct by rule text."
         .into();
     report.assumptions = vec![
